@@ -1,5 +1,6 @@
 //! adsim — deterministic simulation harness for brave/adblock-rust.
 
+mod driver;
 mod exec;
 mod hist;
 mod minimize;
@@ -80,10 +81,56 @@ fn main() {
                 }
             }
         }
+        "worker" => {
+            let prop = args[2].clone();
+            let g = |n: &str, d: u64| arg_val(&args, n).map(|s| s.parse().unwrap()).unwrap_or(d);
+            let reverse = args.iter().any(|a| a == "--reverse");
+            driver::worker_hist(&prop, g("--seed", 1), g("--start", 0), g("--stride", 1), g("--count", 10), g("--deadline", 3600), arg_val(&args, "--breadcrumb"), reverse);
+        }
+        "run" => {
+            let prop = args[2].clone();
+            let tier = arg_val(&args, "--tier").or_else(|| std::env::var("VERIF_TIER").ok()).unwrap_or_else(|| "quick".into());
+            let seed: u64 = arg_val(&args, "--seed").or_else(|| std::env::var("VERIF_SEED").ok()).and_then(|s| s.parse().ok()).unwrap_or(1);
+            let workers: u64 = arg_val(&args, "--workers").and_then(|s| s.parse().ok()).unwrap_or(16);
+            let runs: Option<u64> = arg_val(&args, "--runs").and_then(|s| s.parse().ok());
+            let code = match prop.as_str() {
+                "C05" | "C06" | "C07" | "C08" => driver::run_hist_check(&prop, &tier, seed, workers, runs),
+                _ => {
+                    eprintln!("unknown property {}", prop);
+                    2
+                }
+            };
+            std::process::exit(code);
+        }
+        "selfcheck" => {
+            let seed: u64 = arg_val(&args, "--seed").or_else(|| std::env::var("VERIF_SEED").ok()).and_then(|s| s.parse().ok()).unwrap_or(1);
+            let runs: u64 = arg_val(&args, "--runs").and_then(|s| s.parse().ok()).unwrap_or(2000);
+            std::process::exit(driver::selfcheck(seed, runs));
+        }
+        "minimize" => {
+            let text = std::fs::read_to_string(&args[2]).expect("read trace file");
+            let t: hist::Trace = serde_json::from_str(&text).expect("parse trace file");
+            let check = hist::parse_check(&t.property).expect("property");
+            driver::warm_up();
+            let o = hist::execute(check, &t);
+            match o.outcome.violation {
+                None => {
+                    eprintln!("trace does not fail");
+                    std::process::exit(3);
+                }
+                Some(v) => {
+                    let (mut mt, mv, ms) = minimize::minimize(check, &t, &v);
+                    mt.note = format!("minimised from run seed {} in {} executions", t.seed, ms.executions);
+                    mt.violation = Some(mv);
+                    std::fs::write(&args[3], serde_json::to_string_pretty(&mt).unwrap()).unwrap();
+                }
+            }
+        }
         "replay" => {
             let text = std::fs::read_to_string(&args[2]).expect("read replay file");
             let t: hist::Trace = serde_json::from_str(&text).expect("parse replay file");
             let check = hist::parse_check(&t.property).expect("property");
+            driver::warm_up();
             let o = hist::execute(check, &t);
             match o.outcome.violation {
                 Some(v) => {
